@@ -89,10 +89,29 @@ CHECKS.update({
   'note': 'The base64 round trip for every length rests on four proved pieces plus a first-order composition step; the real encoder∘decoder composition and the url-safe decoder are '
           'bounded stand-ins (<= 7 bytes / <= 8 characters), labelled bounded. Trusted: std::string stub (libstdc++), cxx2c rules.'},
 })
+CHECKS.update({
+ 'C07': {
+  'text': 'Every renderer (igris_i64toa/u64toa and the six width wrappers, itoa/utoa/ltoa/ultoa, debug_printdec/hex/bin, vt100_left) is proved against a positional-notation oracle '
+          'written from the property text for the full 64-bit (resp. 8..32-bit) value domain, case-split over the base so that division is by a constant (quick: bases 2, 7, 8, 10, 16, 36; '
+          'thorough: all 35): canonical digits, optional minus, no leading zeros, NUL, returned pointer, and an exact-size output window (one extra write fails a bounds obligation). The '
+          'parsers igris_ato* are proved for a symbolic base and unbounded text by a loop invariant with a ghost Horner fold: value modulo 2^w, both letter cases, *end at the first '
+          'character that cannot continue the number, no read past it. Round trips are proved end to end for power-of-two bases.',
+  'ref': 'C07', 'technique': 'CBMC full-domain proofs per base with a lock-step ghost reference inside the (width-bounded, fully unwound) digit loops; loop-invariant co-simulation for the parsers',
+  'note': 'Digit loops are bounded by the operand width (<= 64 iterations) and unwound completely with unwinding assertions. The round trip for bases that are not powers of two follows '
+          'from the separately proved renderer and parser plus an arithmetic fact about the oracle (not one run). Cuts (assert c; assume c) are obligations of the same run.'},
+ 'C12': {
+  'text': 'Partial claim. Proved for every binary32/binary64 bit pattern in the supported range and every precision: igris_f32toa/f64toa/ftoa write only inside an exact-size buffer, produce '
+          '-?digits[.digits] with exactly the requested number of fraction digits, NUL terminated, inf/nan tokens, only characters of the allowed alphabet. Proved for texts of any length: '
+          'the lexical behaviour of igris_atof64/atof32/strtod/atof against the grammar [+-]d*[.d*][(e|E)[+-]d+] (end pointer, no over-read, integer exponent bookkeeping, sign). The ACCURACY '
+          'clauses (within one unit of the last digit / a few ulps of strtod) relate floats to real decimal values and are NOT decidable with CBMC: not claimed.',
+  'ref': 'C12', 'technique': 'CBMC bit-precise IEEE-754 reasoning with loop invariants (0 <= f < 1 for the fraction loop); lexical co-simulation of the parsers',
+  'note': 'Open known findings (not small repairs): values with |f| >= 2^31 render as garbage (int32 cast), igris_atof32 has no exponent support and overflows with >= 19 fraction digits, '
+          'debug_printdec_double_prec prints wrong fraction digit counts / overflows for large values and precisions. See units/C12/PROPERTY.json.'},
+})
 WIP = 'no proof unit built yet in this session (work in progress; see DESIGN.md for the planned contracts)'
 NOT_APPLICABLE = {
- 'C02': WIP, 'C06': WIP, 'C07': WIP, 'C10': WIP, 'C11': WIP,
- 'C12': WIP, 'C15': WIP, 'C19': WIP,
+ 'C02': WIP, 'C06': WIP, 'C10': WIP, 'C11': WIP,
+ 'C15': WIP, 'C19': WIP,
  'C09': 'quantifies over a family of C++ types assembled by template metaprogramming (partial specialisations, SFINAE, '
         'concepts, std::tuple/map/string, virtual archives); CBMC has no usable C++ front end and the mechanical C '
         'extraction deliberately excludes templates-over-types, so no contract on the real code can state it',
